@@ -158,7 +158,20 @@ def ops(U, p):
         d2.fit_points([conv(F(i * i - 3, 2)) for i in range(n + 2)])
         d3 = Curve([conv(u) for u in U])
         d3.fit_points([conv(F((-1) ** i * (i + 1), 3)) for i in range(n)])          # len(points) == npts: square system
-        return [dst, err, d2, d3]
+        # exact interpolation at the Greville abscissae listed in a NON-MONOTONE order: the square system then needs row exchanges (zero pivots)
+        if p >= 1:
+            gre = [sum(U[i + 1:i + p + 1], F(0)) / p for i in range(n)]
+        else:
+            gre = [(U[i] + U[i + 1]) / 2 for i in range(n)]
+        order = list(range(1, n, 2)) + list(range(0, n, 2))[::-1]
+        d4 = Curve([conv(u) for u in U])
+        d4.fit_points([conv(F((-1) ** i * (i + 2), 5)) for i in order], [conv(gre[i]) for i in order])
+        # a fixed small case whose exact elimination meets a zero pivot with only zeros and negative entries below it
+        d5 = Curve([conv(x) for x in (F(0), F(0), F(1, 3), F(2, 3), F(1), F(1))])
+        d5.fit_points([conv(x) for x in (F(2), F(-1), F(3), F(1, 2))], [conv(x) for x in (F(1, 4), F(2, 3), F(0), F(1))])
+        d6 = Curve([conv(x) for x in (F(0), F(0), F(0), F(1, 4), F(1, 2), F(1), F(1), F(1))])
+        d6.fit_points([conv(x) for x in (F(1), F(-2), F(3), F(0), F(5, 3))], [conv(x) for x in (F(1, 2), F(1, 8), F(1), F(0), F(3, 4))])
+        return [dst, err, d2, d3, d4, d5, d6]
 
     def t_integrate(conv, rat):
         return [calculus.Integrate.scalar(mk(False, conv))]
